@@ -9,7 +9,7 @@ EXPLANATION = ('POLARITY rule on every state-changing site: MH: the only store o
                's\' and U < min(1, n\'/n), candidate inside the tree replaced only under U < n\'\'/max(n\'+n\'\',1) (threshold proportional to n\'\'); negated forms (!(a <= b)), '
                'min/max based selection or partial_cmp().unwrap() on these sites are violations; float->float conversions on these paths checked by type. '
                'Numeric behaviour of burn kernels on NaN/inf (trusted table) and absence of hangs on adversarial targets are not decided.')
-FLOORS = {'obligations': 12}   # counted on the reference tree; fewer instantiated obligations is reported, never passed silently
+FLOORS = {'obligations': 52}   # counted on the reference tree; fewer instantiated obligations is reported, never passed silently
 TECHNIQUE = 'polarity analysis of accept conditions over value-flow terms (ordered-comparison true edge, sign of the candidate density term), selection-only rule'
 
 
@@ -35,6 +35,13 @@ def run(ctx):
     nuts(ctx)
     conversions(ctx)
     progress(ctx)
+    # "every state-changing site": the polarity rule above covers the anchored transitions; the frame rules show these are the
+    # ONLY code that can change a chain's state (besides constructors / the seeding API)
+    from . import C01, C02, C03
+    for mod in (C01, C02, C03):
+        got = ctx.borrow(mod.frame_rules, lambda oid: True)
+        if not got:
+            ctx.unknown('C14.frame', mod.__name__.rsplit('.', 1)[-1], 'borrowed', why='frame obligations could not be instantiated')
 
 
 def mh(ctx):
